@@ -667,3 +667,147 @@ func runSizeGate(p *Program, c *Collector, a FuncRuleSpec) {
 		c.Ob(a.Props, "E7.size-gate", "sizegate:"+strings.Join(a.Funcs, ","), Undecided, a.What+": no loop over a list found (anchor lost)", "", false)
 	}
 }
+
+// ---------------------------------------------------------------------------------------------
+// stale copy: the entries of a package-level map are records (values, not pointers), so `G = M[k]` takes a copy. When one
+// function takes the copy into a package-level variable and another function writes it back (`M[k] = G`), every update of
+// the entry made in between — by the functions that do their own read-modify-write on M — is overwritten by the old copy
+// (the calls recorded inside an anonymous class were lost from the enclosing method).
+func runStaleCopy(p *Program, c *Collector, a FuncRuleSpec) {
+	fns := expandFuncs(p, c, a.Funcs, a.Props...)
+	type gm struct{ G, M *ssa.Global }
+	taken := map[gm][]*ssa.Function{}
+	back := map[gm][]ssa.Instruction{}
+	updaters := map[*ssa.Global]map[*ssa.Function]bool{}
+	for _, fn := range fns {
+		for _, b := range fn.Blocks {
+			for _, in := range b.Instrs {
+				switch x := in.(type) {
+				case *ssa.Store:
+					G, whole := globalOfAddr(x.Addr)
+					if G == nil || !whole {
+						continue
+					}
+					v := x.Val
+					if ex, ok := v.(*ssa.Extract); ok {
+						v = ex.Tuple
+					}
+					if lk, ok := v.(*ssa.Lookup); ok {
+						if M := loadedGlobal(lk.X); M != nil {
+							if _, isStruct := G.Type().(*types.Pointer).Elem().Underlying().(*types.Struct); isStruct {
+								taken[gm{G, M}] = append(taken[gm{G, M}], fn)
+							}
+						}
+					}
+				case *ssa.MapUpdate:
+					M := loadedGlobal(x.Map)
+					if M == nil {
+						continue
+					}
+					if updaters[M] == nil {
+						updaters[M] = map[*ssa.Function]bool{}
+					}
+					updaters[M][fn] = true
+					if G := loadedGlobal(x.Value); G != nil {
+						back[gm{G, M}] = append(back[gm{G, M}], in)
+					}
+				}
+			}
+		}
+	}
+	var keys []gm
+	for k := range back {
+		if len(taken[k]) > 0 {
+			keys = append(keys, k)
+		}
+	}
+	sort.Slice(keys, func(i, j int) bool { return keys[i].G.Name()+keys[i].M.Name() < keys[j].G.Name()+keys[j].M.Name() })
+	n := 0
+	for _, k := range keys {
+		for _, wb := range back[k] {
+			n++
+			key := "stalecopy:" + p.FuncKey(wb.Parent()) + " " + k.G.Name() + " into " + k.M.Name()
+			sameFn := false
+			for _, t := range taken[k] {
+				if t == wb.Parent() {
+					sameFn = true
+				}
+			}
+			others := 0
+			for f := range updaters[k.M] {
+				if f != wb.Parent() {
+					others++
+				}
+			}
+			switch {
+			case sameFn:
+				c.Ob(a.Props, "E7.stale-copy", key, Discharged, "the copy is taken and written back within one function", p.InstrPos(wb), true)
+			case others == 0:
+				c.Ob(a.Props, "E7.stale-copy", key, Discharged, "no other function updates the entries of "+k.M.Name(), p.InstrPos(wb), true)
+			default:
+				c.Ob(a.Props, "E7.stale-copy", key, Violated, a.What+": "+k.G.Name()+" is a copy of an entry of "+k.M.Name()+" taken in "+shortFn(p.FuncKey(taken[k][0]))+"; "+shortFn(p.FuncKey(wb.Parent()))+" writes it back, and "+strconv.Itoa(others)+" other function(s) update entries of "+k.M.Name()+" in between: their updates are overwritten by the old copy", p.InstrPos(wb), false)
+			}
+		}
+	}
+	if n == 0 {
+		c.Ob(a.Props, "E7.stale-copy", "stalecopy:"+strings.Join(a.Funcs, ","), Discharged, a.What+": no package-level copy of a map entry is written back", "", true)
+	}
+}
+
+// ---------------------------------------------------------------------------------------------
+// library configuration: some switches of a library object change what it accepts. encoding/xml's Decoder with Strict=false or
+// an AutoClose table reads well-formed XML differently (an element named like an HTML void element — <link>, <meta>, <param> —
+// closes at once and the explicit end tag then tears down its ancestors): a reader of build files must leave them alone.
+type FieldStoreSpec struct {
+	Props  []string `json:"props"`
+	Funcs  []string `json:"funcs"`
+	Type   string   `json:"type"`   // "<pkg path>.<type>"
+	Fields []string `json:"fields"` // fields that may not be assigned
+	What   string   `json:"what"`
+}
+
+func runForbiddenFieldStore(p *Program, c *Collector, fs FieldStoreSpec) {
+	uses := 0
+	for _, fn := range expandFuncs(p, c, fs.Funcs, fs.Props...) {
+		for _, b := range fn.Blocks {
+			for _, in := range b.Instrs {
+				// the object is made or used here
+				if v, ok := in.(ssa.Value); ok {
+					t := v.Type()
+					if pt, ok := t.Underlying().(*types.Pointer); ok {
+						t = pt.Elem()
+					}
+					if pk, n := namedTypeName(t); pk+"."+n == fs.Type {
+						uses++
+					}
+				}
+				st, ok := in.(*ssa.Store)
+				if !ok {
+					continue
+				}
+				fa, ok := st.Addr.(*ssa.FieldAddr)
+				if !ok {
+					continue
+				}
+				t := fa.X.Type()
+				if pt, ok := t.Underlying().(*types.Pointer); ok {
+					t = pt.Elem()
+				}
+				if pk, n := namedTypeName(t); pk+"."+n != fs.Type {
+					continue
+				}
+				fname, _ := fieldOf(fa.X.Type(), fa.Field)
+				for _, f := range fs.Fields {
+					if f == fname {
+						c.Ob(fs.Props, "E7.library-configuration", "fieldstore:"+p.FuncKey(fn)+" "+fs.Type+"."+fname, Violated, fs.What+": "+shortFn(p.FuncKey(fn))+" sets "+fname+" of the "+fs.Type+": the reader then accepts and structures documents differently from what they say", p.InstrPos(in), false)
+					}
+				}
+			}
+		}
+	}
+	if uses == 0 {
+		c.Ob(fs.Props, "E7.library-configuration", "fieldstore:"+strings.Join(fs.Funcs, ",")+" "+fs.Type, Undecided, fs.What+": no "+fs.Type+" is used in the named functions any more (anchor lost)", "", false)
+	} else {
+		c.Ob(fs.Props, "E7.library-configuration", "fieldstore:"+strings.Join(fs.Funcs, ",")+" "+fs.Type+" default", Discharged, "the "+fs.Type+" is used as the library configures it", "", true)
+	}
+}
